@@ -467,3 +467,29 @@ def _subscript_case(kind):
 
 
 CUSTOM['pane.classes:_make_subclass.bounded'] = lambda m: [(_subscript_case, ['kind'], (k,), f'subscript[{k}]') for k in ('forwarded', 'explicit-generic', 'partially-bound')]
+
+
+def _rtv_instances(m):
+    T1, T2 = t.TypeVar('T1'), t.TypeVar('T2')
+    cases = [
+        (T1, {T1: int}, int), (t.List[T1], {T1: int}, t.List[int]), (t.Dict[str, t.List[T1]], {T1: int}, t.Dict[str, t.List[int]]),
+        (t.Union[T1, float], {T1: int}, t.Union[int, float]), (t.Union[float, T1], {T1: int}, t.Union[float, int]),
+        (t.Union[T1, T2, str], {T1: str, T2: int}, t.Union[str, int]), (t.Union[T1, str], {T1: bool}, t.Union[bool, str]),
+        (t.Union[str, T1], {T1: bool}, t.Union[str, bool]), (t.Union[T1, bytes], {T1: complex}, t.Union[complex, bytes]),
+        (t.Union[bytes, T1], {T1: complex}, t.Union[bytes, complex]), (t.Union[T1, None], {T1: float}, t.Optional[float]),
+        (t.Optional[t.List[T1]], {T1: int}, t.Optional[t.List[int]]), (t.List[t.Tuple[str, T1]], {T1: int}, t.List[t.Tuple[str, int]]),
+        (t.Tuple[T1, ...], {T1: int}, t.Tuple[int, ...]), (t.Union[T1, int], {T1: int}, int), (t.List[T1], {}, t.List[T1]),
+        (t.Dict[T1, T2], {T1: str, T2: t.List[int]}, t.Dict[str, t.List[int]]), (int, {T1: str}, int),
+        (t.Union[t.List[T1], t.Set[T1], T1], {T1: int}, t.Union[t.List[int], t.Set[int], int]),
+    ]
+    return [(m.replace_typevars, ['ty', 'replacements', 'expect'], (a, b, c), f'replace_typevars({a}, ...)') for a, b, c in cases]
+
+
+def _wrap_rtv(m):
+    out = []
+    for fn, params, args, desc in _rtv_instances(m):
+        out.append(((lambda ty, repl, expect, _f=fn: _f(ty, repl)), params, args, desc))
+    return out
+
+
+CUSTOM['pane.util:replace_typevars.bounded'] = _wrap_rtv
